@@ -46,6 +46,9 @@ fn configs() -> Vec<Config> {
     let set_b = [t(0.0, 0.125, Repeat::None, false, 2), t(1.0, 0.5, Repeat::None, true, 0), t(0.0, 1.0, Repeat::Infinite, false, 1)];
     let dv_short = t(0.0, 0.125, Repeat::None, false, 0);
     let dv_long = t(0.0, 64.0, Repeat::Times(3), false, 0);
+    // a second animator whose own (non-Ended) state changes fall into the frames in which the governed
+    // animator ends: Waiting -> Playing after 1/8 s, then a long run
+    let dv_delayed = t(0.125, 64.0, Repeat::None, false, 0);
     let chains: Vec<(&str, Option<Vec<(Key, Key)>>)> = vec![
         ("no-chain", None),
         ("go->done", Some(vec![(Key::Go, Key::Done)])),
@@ -58,8 +61,8 @@ fn configs() -> Vec<Config> {
     for (si, set) in [set_a, set_b].iter().enumerate() {
         for (cn, ch) in &chains {
             for two in [false, true] {
-                for (dn, dv) in [("dv-short", &dv_short), ("dv-long", &dv_long)] {
-                    if !two && dn == "dv-long" {
+                for (dn, dv) in [("dv-short", &dv_short), ("dv-long", &dv_long), ("dv-delayed", &dv_delayed)] {
+                    if !two && dn != "dv-short" {
                         continue;
                     }
                     v.push(Config { tls: set.clone(), chain: ch.clone(), two, dv: dv.clone(), name: format!("set{}|{cn}|{}", ["A", "B"][si], if two { dn } else { "one-component" }) });
@@ -314,7 +317,7 @@ pub fn run(run: &mut Run) {
         AnimationSelector (keys Idle/Go/Done with timelines, NoTl without), optionally AnimationChain (none, go->done, a cycle, \
         self-loop + idle->go, via a key without timeline) and optionally a second animated component with its own Animator (short or \
         long timeline); ALL histories of length {depth} over {{no-op, assign Idle/Go/Done/NoTl}} x frame deltas {{0, 1/512 s, 1/8 s, 64 s}} \
-        for each of 36 configurations plus random histories of 30-120 frames; every frame must be explained by the specification \
+        for each of 48 configurations plus random histories of 30-120 frames; every frame must be explained by the specification \
         (selection iff key differs from the key last acted on: animator restarts from 0, component does not jump, then follows the \
         new timeline started from the values at the switch; key without timeline => state None and component untouched; re-assigning \
         the current key => nothing; the key only changes by itself when the governed Animator ended in the previous frame with key \
